@@ -471,6 +471,21 @@ class Interp:
     def st_Try(self, st):
         # body path; handlers are explored as an alternative when they do something else than re-raise / log
         interesting = [h for h in st.handlers if any(isinstance(x, (ast.Return, ast.Assign)) for x in ast.walk(h))]
+        # `try: v = frame["col"] except KeyError: ...` is the test `"col" in frame.columns` written with an exception: decided on the same condition (hascol)
+        if len(st.handlers) == 1 and st.handlers[0].type is not None and ast.unparse(st.handlers[0].type) == "KeyError" and len(st.body) == 1 and not st.orelse and not st.finalbody \
+                and isinstance(st.body[0], (ast.Assign, ast.Expr)) and isinstance(st.body[0].value, ast.Subscript) and isinstance(st.body[0].value.value, ast.Name) \
+                and isinstance(st.body[0].value.slice, ast.Constant) and isinstance(st.body[0].value.slice.value, str):
+            base = self.eval(st.body[0].value.value)
+            if isinstance(base, Frame):
+                col = st.body[0].value.slice.value
+                h_ = base.has(col)
+                present = T.C(h_) if h_ is not None else ("hascol", base.base, col)
+                if self.decide(present, st):
+                    self.exec_block(st.body)
+                else:
+                    self.log("except-path", st, what="KeyError (column absent)")
+                    self.exec_block(st.handlers[0].body)
+                return
         if interesting and not self.decide(("noexc", getattr(st, "lineno", 0)), st):
             h = interesting[0]
             self.log("except-path", st, what=ast.unparse(h.type) if h.type is not None else "bare")
